@@ -160,6 +160,7 @@ func init() {
 			{Name: "sizes", TShards: 6, Run: c03Sizes},
 			{Name: "prefixes", Run: prefixUnit("sam", false, 0)},
 			{Name: "edges", Run: edgeUnit("sam")},
+			{Name: "lexicon", TShards: 4, Run: lexiconUnit("sam")},
 			{Name: "fieldlens", TShards: 4, Run: lengthUnit("sam")},
 			{Name: "parallel", Race: true, Run: codecParallel("sam", "samh")},
 			{Name: "histories", Run: codecHistories("sam", "samh")},
